@@ -179,8 +179,11 @@ def run(chk):
     b = prog.bodies.get("ifdata::parse_ifdata_item")
     if b is not None:
         n += 1
-        sets = [(bi, t) for bi, t in b.calls() if (t.get("res") or "").endswith("set_tokenpos")]
-        gets = [(bi, t) for bi, t in b.calls() if (t.get("res") or "").endswith("get_tokenpos")]
+        # the loop may live in parse_ifdata_item itself or in a helper split off it (a function the reviewed tree does not know)
+        kn = sym.known_functions()
+        fam = [b] + [prog.bodies[t["res"]] for bi, t in b.calls() if t.get("res") in prog.bodies and kn is not None and mir.strip_generics(t["res"]) not in kn and prog.bodies[t["res"]].kind != "Closure"]
+        sets = [(bi, t) for fb in fam for bi, t in fb.calls() if (t.get("res") or "").endswith("set_tokenpos")]
+        gets = [(bi, t) for fb in fam for bi, t in fb.calls() if (t.get("res") or "").endswith("get_tokenpos")]
         if not sets or len(gets) < 2:
             chk.add(Finding("R18-rewind", "R18-rewind::sequence", "the A2ML sequence parser does not restore the cursor to the position after the last complete item", b.where()))
     chk.rule("R18-rewind", "no-match exits of the speculative IF_DATA parsers preceded by set_tokenpos(checkpoint)", n, floor=5)
